@@ -1,4 +1,4 @@
-SPECIFICATION Spec
+SPECIFICATION SpecFast
 CONSTANTS
   Nodes = {1, 2, 3, 4}
   InitPower <- P1120
@@ -6,7 +6,7 @@ CONSTANTS
   Bodies <- BodiesM
   SigLists <- ListsM
   Replicas = {1, 2}
-  MaxTx = 3
+  MaxTx = 2
   MaxBlocks = 2
   DedupSigners = TRUE
   DirectOpen = FALSE
